@@ -236,7 +236,7 @@ def St.startDls (s : St) : St :=
     s.peers.foldl (fun s p => if (s.findDl p.k).isNone then s.startDlFor p.k else s) s
   else s
 
-/-- `closePeer(pe)` (torrent_close.go).  After the fix for finding F02 it ends by re-running the
+/-- `closePeer(pe)` (torrent_close.go).  After the fix for finding C10-F1 it ends by re-running the
 picker (`startPieceDownloaders`), so that pieces the closed peer was downloading are picked up by
 idle peers. -/
 def St.closePeer (s : St) (k : Nat) : St :=
@@ -283,7 +283,7 @@ def St.stop (s : St) (err : Bool) : St :=
                sto := s.sto ++ opened.map (fun i =>
                  s!"open:{fileName s.cfg i}:{s.cfg.flens.getD i 0}:" ++
                    (if s.fileExists.getD i false then "existed" else "new")) ++
-                 -- the dropped result's files are closed by the allocator itself (fix for F04)
+                 -- the dropped result's files are closed by the allocator itself (fix for C04-F2)
                  opened.map (fun i => "close:" ++ fileName s.cfg i),
                fileExists := (List.range s.cfg.flens.length).map (fun i => s.fileExists.getD i false || opened.contains i),
                known := (List.range s.cfg.flens.length).map (fun i => s.known.getD i false || opened.contains i),
@@ -292,7 +292,7 @@ def St.stop (s : St) (err : Bool) : St :=
   let s := if s.verifier then { s with verifier := false, gateRead := false } else s
   { s with stopAnn := true }
 
-/-- `resetCompletion()` (torrent_pieces.go; introduced by the fix for finding F03). -/
+/-- `resetCompletion()` (torrent_pieces.go; introduced by the fix for finding C04-F1). -/
 def St.resetCompletion (s : St) : St :=
   if s.completed then { s with completed := false, completeCClosed := false } else s
 
@@ -397,7 +397,7 @@ def firstMessages (s : St) (p : Peer) : List String :=
     | none => if p.fast then ["havenone"] else []
   bfMsg ++ (if p.ext then ["exths"] else [])
 
-/-- `markPaddingPieces()` (fix for finding F05): pieces without any block are done once their hash
+/-- `markPaddingPieces()` (fix for finding C10-F2): pieces without any block are done once their hash
 matches zeroes — which it does for the true content, padding being zeroes. -/
 def St.markPaddingPieces (s : St) : St :=
   match s.bf with
@@ -719,7 +719,7 @@ def acceptPeer (m : M) (k : Nat) (ip : String) (fast ext badHash dupId : Bool) :
   if s.peers.length ≥ s.cfg.maxAccept then (m, "refused-closed")
   else if s.peers.any (·.ip = ip) then (m, "refused-closed")
   else if s.banned.contains ip then (m, "refused-closed")
-  else if badHash then (m, "refused-closed")   -- failed handshake: the loop closes the socket (fix for F06)
+  else if badHash then (m, "refused-closed")   -- failed handshake: the loop closes the socket (fix for C17-F1)
   else if dupId then (m, "refused-closed")
   else
     let p : Peer := { k := k, ip := ip, fast := fast, ext := ext,
